@@ -182,3 +182,29 @@ Example geometric_hyps_satisfiable :
   insphere_model (0,0,0) (4,0,0) (0,4,0) (0,0,4) (4,4,4) = 0 /\
   insphere_model (0,0,0) (4,0,0) (0,4,0) (0,0,4) (5,5,5) = 1.
 Proof. cbn [in_grid]. repeat split; try lia; reflexivity. Qed.
+
+(* ---- the grid must be a similarity: the predicate is invariant under translation and isotropic
+   scaling of all five points, and NOT under an anisotropic scaling (finding fixed by ab48a7b) *)
+Definition similar (k : Z) (t p : P3) : P3 :=
+  let '(x, y, z) := p in let '(t0, t1, t2) := t in (k * x + t0, k * y + t1, k * z + t2).
+
+Lemma insphere_similarity_invariant k t a b c d v : 0 < k ->
+  insphere_nowrap (similar k t a) (similar k t b) (similar k t c) (similar k t d) (similar k t v)
+  = insphere_nowrap a b c d v.
+Proof.
+  intros Hk. unfold insphere_nowrap.
+  destruct a as [[a0 a1] a2], b as [[b0 b1] b2], c as [[c0 c1] c2],
+           d as [[d0 d1] d2], v as [[v0 v1] v2], t as [[t0 t1] t2].
+  cbv [similar sub3 n2].
+  set (D := insphere_det4 (b0 - a0, b1 - a1, b2 - a2, _) _ _ _).
+  match goal with |- Z.sgn ?L = _ => replace L with (k * k * k * k * k * D) end.
+  - rewrite Z.sgn_mul. rewrite Z.sgn_pos by nia. lia.
+  - unfold D. cbv [insphere_det4 det3 det2]. ring.
+Qed.
+
+Example anisotropic_scaling_changes_the_answer :
+  let a := (0, 0, 0) in let b := (2, 0, 0) in let c := (0, 2, 0) in let d := (0, 0, 2) in let v := (-1, 1, 1) in
+  let stretch p := (let '(x, y, z) := p in (x, y, 3 * z)) in
+  insphere_nowrap a b c d v = 1 /\
+  insphere_nowrap (stretch a) (stretch b) (stretch c) (stretch d) (stretch v) = -1.
+Proof. vm_compute. split; reflexivity. Qed.
